@@ -23,6 +23,8 @@ CONFIGS = {
     'rel': dict(build_type='RelWithDebInfo', flags=''),
     # what BUILD.md documents: no build type => assertions on
     'dbg': dict(build_type='', flags=''),
+    # the pinned optimisation flags with assertions left on: differs from 'rel' in NDEBUG only
+    'rel-assert': dict(build_type='RelWithDebInfo', flags='', extra=['-DCMAKE_C_FLAGS_RELWITHDEBINFO=-O2 -g', '-DCMAKE_CXX_FLAGS_RELWITHDEBINFO=-O2 -g']),
     'asan': dict(build_type='RelWithDebInfo', flags=SAN),
     'asan-dbg': dict(build_type='', flags=SAN),
 }
@@ -75,6 +77,7 @@ def ensure_config(cfg):
             if c['flags']:
                 cmd += ['-DCMAKE_C_FLAGS=' + c['flags'], '-DCMAKE_CXX_FLAGS=' + c['flags'],
                         '-DCMAKE_EXE_LINKER_FLAGS=-fsanitize=address,undefined']
+            cmd += c.get('extra', [])
             _run(cmd)
         _run(['ninja', '-C', d, 'dfs', 'bbcbasic_to_text'])
     return {'dfs': os.path.join(d, 'dfs', 'dfs'),
@@ -123,7 +126,7 @@ def ensure(configs):
 
 
 if __name__ == '__main__':
-    cfgs = sys.argv[1:] or ['rel', 'dbg', 'asan', 'asan-dbg', 'msan-basic']
+    cfgs = sys.argv[1:] or ['rel', 'rel-assert', 'dbg', 'asan', 'asan-dbg', 'msan-basic']
     r = ensure(cfgs)
     for k in r:
         print(k, r[k])
